@@ -21,10 +21,21 @@ RotCases ==
   {Mk(sh, <<m * l[1], m * l[2], tx, m * l[3], m * l[4], ty>>, o, [ttol |-> <<1, 20>>, stol |-> <<1, 1000>>]) :
      l \in {<<0, -960, 960, 0>>, <<0, 960, -960, 0>>, <<576, -768, 768, 576>>, <<-768, -576, 576, -768>>},       \* 90, -90, (3/5, 4/5), its 90-degree companion
      m \in {1, 2}, tx \in {0, 2000, -1500, 4500}, ty \in {0, 3000, 7000}, sh \in Shapes, o \in Opts}
+\* isotropic scales just below / above an integer (inside and outside the read-shrink and paste tolerances), with the caller's tolerances varied
+NearScales == {2842, 1881, 2879, 2881, 1939, 2841}
+NearCases(sx) ==
+  {Mk(sh, <<sx, 0, k * 960 + r, 0, sy, ty>>, o, t) :
+     k \in {-2, 0, 3}, r \in {0, 15, 60}, sy \in {sx, -sx}, ty \in {0, 1935}, sh \in Shapes, o \in {[pad |-> <<>>, align |-> <<>>], [pad |-> <<0>>, align |-> <<>>], [pad |-> <<1>>, align |-> <<>>]},
+     t \in {[ttol |-> <<1, 20>>, stol |-> <<1, 1000>>], [ttol |-> <<1, 20>>, stol |-> <<1, 20>>], [ttol |-> <<1, 5>>, stol |-> <<1, 1000>>], [ttol |-> <<1, 100>>, stol |-> <<1, 50>>]}}
+\* a shear / rotation of 1/64 or 1/16 pixel per pixel on an otherwise whole-pixel map: never scale + translation, whatever the tolerances
+ShearCases ==
+  {Mk(sh, <<m * 960, b, tx, d, m * 960, ty>>, o, t) :
+     m \in {1, 2}, b \in {15, -15, 60}, d \in {0, 15, -15}, tx \in {0, 1920, -960}, ty \in {0, 960}, sh \in Shapes, o \in {[pad |-> <<>>, align |-> <<>>], [pad |-> <<0>>, align |-> <<>>]},
+     t \in {[ttol |-> <<1, 20>>, stol |-> <<1, 1000>>], [ttol |-> <<1, 20>>, stol |-> <<1, 20>>], [ttol |-> <<1, 5>>, stol |-> <<1, 10>>]}}
 AxisCases(s) == {[ns |-> ns, nd |-> nd, s |-> s, t |-> k * 960 + r] : ns \in 1..5, nd \in 1..5, k \in -8..13, r \in Res \cup {320, -320, 640}}
 VARIABLE c
-Init == c \in {[k |-> "st", v |-> s] : s \in Scales} \cup {[k |-> "rot", v |-> 0]} \cup {[k |-> "axis", v |-> s] : s \in Scales}
-Next == "k" \in DOMAIN c /\ c' \in (IF c.k = "st" THEN STCases(c.v) ELSE IF c.k = "axis" THEN AxisCases(c.v) ELSE RotCases) /\ Emit(c')
+Init == c \in {[k |-> "st", v |-> s] : s \in Scales} \cup {[k |-> "near", v |-> s] : s \in NearScales} \cup {[k |-> "rot", v |-> 0], [k |-> "shear", v |-> 0]} \cup {[k |-> "axis", v |-> s] : s \in Scales}
+Next == "k" \in DOMAIN c /\ c' \in (IF c.k = "st" THEN STCases(c.v) ELSE IF c.k = "near" THEN NearCases(c.v) ELSE IF c.k = "shear" THEN ShearCases ELSE IF c.k = "axis" THEN AxisCases(c.v) ELSE RotCases) /\ Emit(c')
 Spec == Init /\ [][Next]_c
 \* design level: the transcribed plan meets the contract
 ModelPlan(x) ==
